@@ -1,5 +1,6 @@
 import HapModel.Drv.Basic
 import HapModel.Model.Clump
+import HapModel.Model.Overlap
 namespace Drv
 open Lean NextIndex Clump
 
@@ -14,5 +15,13 @@ def hClump (j : Json) : R Json := do
   let inLD : V → V → Bool := fun a b => (ld.getD a.uid #[]).getD b.uid false
   let r := clump one p1 p2 win inLD vars
   pure <| jObj [("clumps", jArr (r.map (fun c => jArr [jNat c.index.uid, jArr (c.members.map (fun m => jNat m.uid))])))]
+
+/-- {"op":"overlap","snp":[[key,row]…],"str":[[key,row]…]} (both sorted by key) → [[snp row, str row]…] -/
+def hOverlap (j : Json) : R Json := do
+  let pr := fun (x : Json) => do match ← arr x with
+    | [a, b] => pure ((← nat a, ← nat b) : Nat × Nat) | _ => throw "pair"
+  let a ← listF pr j "snp"
+  let b ← listF pr j "str"
+  pure <| jObj [("pairs", jArr ((Overlap.walk a b).map (fun p => jArr [jNat p.1, jNat p.2])))]
 
 end Drv
